@@ -3,8 +3,9 @@
    covered: token classes (all of Model/Core.v except LineStart/GoToColumn), And, MatchFirst, Or ('^': the alternative that
    consumes the most input, leftmost on a tie), Each (whose required operands
    cannot return empty: see C01_each_once_refuted below), Opt (with or without default),
-   ZeroOrMore, OneOrMore (without stop_on), NotAny, FollowedBy, Group, Suppress, Combine (over a content that yields scalar
-   tokens only: `flat_class`, see the end of this file), DelimitedList/TokenConverter wrappers, Forward
+   ZeroOrMore, OneOrMore (with or without stop_on), NotAny, FollowedBy, Group, Suppress, Combine (over a content that yields
+   scalar tokens only: `flat_class`, see below), SkipTo (plain or include=True, no fail_on, no ignore=, over a target whose
+   head component does not skip whitespace: see the end of this file), DelimitedList/TokenConverter wrappers, Forward
    (recursive grammars through the environment G), any whitespace sets that satisfy the constructor's inheritance rule
    (`child_ok`), no parse actions, no results names, no ignore expressions. *)
 From Coq Require Import List ZArith NArith Bool.
@@ -228,3 +229,135 @@ Example C01_combine_group_outside :
                 (Tok (oc_at 3 false false true false true 3) [] (KLit [46%N]))) in
   in_class [] g = false /\ in_ref_class [] g = true.
 Proof. vm_compute. split; reflexivity. Qed.
+
+(* ---- repetition with stop_on in the proved class ----
+   `in_class` contains `Rep a [] zero body (Some ne)` when `a` is plain and the body and the sentinel `ne` (the dumped
+   `NotAny(stop_on)`, tried by `try_parse` before every round, do_actions = False) are in the class; the reading
+   (`peg_star_stop`): "repeat the body while the stop expression does NOT match here".  So C01_peg_equiv /
+   C01_peg_equiv_nopre / C01_parse_string above cover "ZeroOrMore, OneOrMore with stop_on".
+   Witness: the dump (after streamline) of  OneOrMore(Word("abden"), stop_on="end") + "end". *)
+Definition ex_stop : expr :=
+  Nary (oc_at 1 true true true true true 22) [] NAnd
+    [ Rep (oc_at 2 true true true false false 14) [] false
+        (Tok (oc_at 5 false true true false true 9) [] (KWord [97; 98; 100; 101; 110]%N [97; 98; 100; 101; 110]%N 1 None false false true))
+        (Some (Enh (oc_at 3 false false true false true 8) [] ENot
+                 (Tok (oc_at 4 false true true false true 5) [] (KLit [101; 110; 100]%N))));
+      Tok (oc_at 6 false true true false true 5) [] (KLit [101; 110; 100]%N) ].
+(* the same grammar without the stop_on *)
+Definition ex_nostop : expr :=
+  Nary (oc_at 1 true true true true true 22) [] NAnd
+    [ Rep (oc_at 2 true true true false false 14) [] false
+        (Tok (oc_at 5 false true true false true 9) [] (KWord [97; 98; 100; 101; 110]%N [97; 98; 100; 101; 110]%N 1 None false false true))
+        None;
+      Tok (oc_at 6 false true true false true 5) [] (KLit [101; 110; 100]%N) ].
+
+(* "ab den end" reads ['ab', 'den', 'end'] (without stop_on the Word eats 'end' and the sequence fails); on "abend end" the
+   stop expression does not match at 0, so 'abend' is one word; on "end" the OneOrMore fails at once; "ab den" lacks the
+   closing 'end'.  Parser (do_actions = true and false) and parse_string agree with the reading. *)
+Example C01_stop_on_instance :
+  env_in_class [] = true /\ in_class [] ex_stop = true /\
+  (let s := [97; 98; 32; 100; 101; 110; 32; 101; 110; 100]%N in
+   peg [] s 6 ex_stop 0 = POk 10 [TStr [97; 98]%N; TStr [100; 101; 110]%N; TStr [101; 110; 100]%N] /\
+   proj (parse (step []) 6 (mkargs ex_stop s 0 true true)) = Some (peg [] s 6 ex_stop 0) /\
+   proj (parse (step []) 6 (mkargs ex_stop s 0 false true)) = Some (peg [] s 6 ex_stop 0) /\
+   peg [] s 6 ex_nostop 0 = PFail) /\
+  (let s := [97; 98; 101; 110; 100; 32; 101; 110; 100]%N in
+   peg [] s 6 ex_stop 0 = POk 9 [TStr [97; 98; 101; 110; 100]%N; TStr [101; 110; 100]%N] /\
+   proj (parse (step []) 6 (mkargs ex_stop s 0 true true)) = Some (peg [] s 6 ex_stop 0)) /\
+  (peg [] [101; 110; 100]%N 6 ex_stop 0 = PFail /\
+   proj (parse (step []) 6 (mkargs ex_stop [101; 110; 100]%N 0 true true)) = Some PFail) /\
+  (peg [] [97; 98; 32; 100; 101; 110]%N 6 ex_stop 0 = PFail /\
+   proj (parse (step []) 6 (mkargs ex_stop [97; 98; 32; 100; 101; 110]%N 0 true true)) = Some PFail) /\
+  (exists r, drun (parse (step []) 6) (parse_string [32; 10; 9; 13]%N ex_stop false [97; 98; 32; 100; 101; 110; 32; 101; 110; 100]%N false)
+             = Some (Entry.POk r) /\ pr_as_list r = [TStr [97; 98]%N; TStr [100; 101; 110]%N; TStr [101; 110; 100]%N]).
+Proof. vm_compute. repeat split. eexists. split; reflexivity. Qed.
+
+(* Combine over a repetition with stop_on is in the class too (`flat_class`: the sentinel yields no token) *)
+Example C01_stop_on_combine_instance :
+  let g := Enh (oc_at 7 false true true true false 31) [] (ECombine []) ex_stop in
+  in_class [] g = true /\
+  peg [] [97; 98; 32; 100; 101; 110; 32; 101; 110; 100]%N 7 g 0 = POk 10 [TStr [97; 98; 100; 101; 110; 101; 110; 100]%N].
+Proof. vm_compute. split; reflexivity. Qed.
+
+(* ---- SkipTo in the proved class ----
+   The reading (Model/Peg.v, case Skip of `peg`, `peg_skip_scan`): after SkipTo's own leading whitespace skip, from the
+   current position, one character at a time up to and including the end of the text, the first position at which the
+   target matches; the target is tried exactly there, WITHOUT a leading whitespace skip of its own (`nopre target`:
+   SkipTo calls `self.expr._parse(instring, tmploc, do_actions=False, callPreParse=False)`; this is why the skipped
+   text keeps its trailing blanks); no such position = no match.  Token: the skipped text, followed with include=True by
+   the target's tokens (the target is then consumed).
+   `in_class` contains `Skip a [] target incl [] None` (no private ignore expression, no fail_on) when `a` is plain, the
+   target is in the class and the component that the target itself calls without pre-parse (first element of an And,
+   content of a wrapper / Forward) does not skip whitespace (`np_ok`; tokens, '|', '^', '&', lookaheads and repetitions
+   as targets always qualify).  So C01_peg_equiv / C01_peg_equiv_nopre / C01_parse_string above cover these SkipTo
+   grammars.  Witnesses: the dumps (after streamline) of  SkipTo(",") + ","  and  SkipTo(",", include=True). *)
+Definition ex_skip : expr :=
+  Nary (oc_at 1 true true true true true 18) [] NAnd
+    [ Skip (oc_at 2 false true true false true 12) [] (Tok (oc_at 3 false true true false true 3) [] (KLit [44%N])) false [] None;
+      Tok (oc_at 4 false true true false true 3) [] (KLit [44%N]) ].
+Definition ex_skip_incl : expr :=
+  Skip (oc_at 1 false true true false true 12) [] (Tok (oc_at 2 false true true false true 3) [] (KLit [44%N])) true [] None.
+
+(* " ab c ,x" reads ['ab c ', ','] (leading blank skipped by SkipTo itself, trailing blank kept); "," reads ['', ','];
+   "abc" and "a  " have no ','.  With include: "a b,c" reads ['a b', ','] and ends at 4. *)
+Example C01_skipto_instance :
+  env_in_class [] = true /\ in_class [] ex_skip = true /\ in_class [] ex_skip_incl = true /\
+  (let s := [32; 97; 98; 32; 99; 32; 44; 120]%N in
+   peg [] s 5 ex_skip 0 = POk 7 [TStr [97; 98; 32; 99; 32]%N; TStr [44%N]] /\
+   proj (parse (step []) 5 (mkargs ex_skip s 0 true true)) = Some (peg [] s 5 ex_skip 0) /\
+   proj (parse (step []) 5 (mkargs ex_skip s 0 false true)) = Some (peg [] s 5 ex_skip 0)) /\
+  (peg [] [44%N] 5 ex_skip 0 = POk 1 [TStr []; TStr [44%N]] /\
+   proj (parse (step []) 5 (mkargs ex_skip [44%N] 0 true true)) = Some (peg [] [44%N] 5 ex_skip 0)) /\
+  (peg [] [97; 98; 99]%N 5 ex_skip 0 = PFail /\
+   proj (parse (step []) 5 (mkargs ex_skip [97; 98; 99]%N 0 true true)) = Some PFail) /\
+  (peg [] [97; 32; 32]%N 5 ex_skip 0 = PFail /\
+   proj (parse (step []) 5 (mkargs ex_skip [97; 32; 32]%N 0 true true)) = Some PFail) /\
+  (let s := [97; 32; 98; 44; 99]%N in
+   peg [] s 5 ex_skip_incl 0 = POk 4 [TStr [97; 32; 98]%N; TStr [44%N]] /\
+   proj (parse (step []) 5 (mkargs ex_skip_incl s 0 true true)) = Some (peg [] s 5 ex_skip_incl 0)) /\
+  (exists r, drun (parse (step []) 5) (parse_string [32; 10; 9; 13]%N ex_skip false [32; 97; 98; 32; 99; 32; 44; 120]%N false)
+             = Some (Entry.POk r) /\ pr_as_list r = [TStr [97; 98; 32; 99; 32]%N; TStr [44%N]]).
+Proof. vm_compute. repeat split. eexists. split; reflexivity. Qed.
+
+(* the call that SkipTo makes to its target: for an element of the class whose head component does not skip, `_parse`
+   WITHOUT pre-parse at ANY location agrees with the reading of `nopre e` (the element with callPreparse off) *)
+Theorem C01_peg_equiv_nopre_any : forall (G : env) (s : str),
+  env_in_class G = true ->
+  forall fuel e, in_class G e = true -> np_ok G e = true -> forall loc d,
+  proj (parse (step G) fuel (mkargs e s loc d false)) = Some (peg G s fuel (nopre e) loc).
+Proof. exact (fun G s HG fuel e He Hn loc d => peg_equiv_nopre_any G s HG fuel e He Hn loc d). Qed.
+(* instance: Literal(",") called without pre-parse at the blank of " ," fails, whereas with pre-parse it matches *)
+Example C01_peg_equiv_nopre_any_instance :
+  let c := Tok (oc_at 3 false true true false true 3) [] (KLit [44%N]) in
+  in_class [] c = true /\ np_ok [] c = true /\
+  proj (parse (step []) 2 (mkargs c [32; 44]%N 0 true false)) = Some PFail /\ peg [] [32; 44]%N 2 (nopre c) 0 = PFail /\
+  peg [] [32; 44]%N 2 c 0 = POk 2 [TStr [44%N]].
+Proof. vm_compute. repeat split. Qed.
+
+(* SkipTo(Literal("a") + "b"): the target And hands "no pre-parse" on to its first element, which skips whitespace on its
+   own: outside the proved class (np_ok) *)
+Example C01_skipto_and_target_outside :
+  let g := Skip (oc_at 1 false true true false true 18) []
+             (Nary (oc_at 2 true true true true true 9) [] NAnd
+                [ Tok (oc_at 3 false true true false true 3) [] (KLit [97%N]); Tok (oc_at 4 false true true false true 3) [] (KLit [98%N]) ])
+             false [] None in
+  in_class [] g = false /\ in_ref_class [] g = false.
+Proof. vm_compute. split; reflexivity. Qed.
+
+(* ---- fail_on ----
+   SkipTo's documentation: "fail_on - define expressions that are not allowed to be included in the skipped test; if found
+   before the target expression is found, the SkipTo is not a match".  This is the reading of `peg_skip_scan`.  SkipTo.parseImpl
+   instead leaves its scan loop with `break` when fail_on matches, which skips the `else:` clause raising the exception:
+   the SkipTo then SUCCEEDS with the text skipped so far (include=False).  Witness: the dump of SkipTo(",", fail_on="a") on
+   "ba,": the faithful model, like the implementation, answers ['b'] (end 1); the reading says no match.  Hence fail_on is
+   outside `in_class` and `in_ref_class`. *)
+Definition ex_skip_failon : expr :=
+  Skip (oc_at 1 false true true false true 12) [] (Tok (oc_at 3 false true true false true 3) [] (KLit [44%N])) false []
+    (Some (Tok (oc_at 2 false true true false true 3) [] (KLit [97%N]))).
+Example C01_skipto_fail_on_refuted :
+  exists r : pres,
+    drun (parse (step []) 5) (parse_string [32; 10; 9; 13]%N ex_skip_failon false [98; 97; 44]%N false) = Some (Entry.POk r)
+    /\ pr_as_list r = [TStr [98%N]]
+    /\ peg [] [98; 97; 44]%N 5 ex_skip_failon 0 = PFail
+    /\ in_class [] ex_skip_failon = false.
+Proof. eexists. vm_compute. repeat split. Qed.
